@@ -430,6 +430,9 @@ for _cls in data_c.MATHS:
             A('same-object', 'result is expr'),
             P(['C12'], 'closed-by-its-own-delimiter',
               'src.i >= old(src.i) + 1 and src.Q[src.i - 1].cat == clsattr(expr, "token_end")'),
+            P(['C12'], 'an-immediate-closing-delimiter-closes-an-empty-region',
+              'old(src.i) < len(src.Q) and src.Q[old(src.i)].cat == clsattr(expr, "token_end") ==> '
+              'src.i == old(src.i) + 1 and len(expr.contents) == len(old(expr.contents))'),
             A('tight-monotone', 'TL(expr.contents) ==> TL(old(expr.contents))'),
             A('clean-monotone', 'CLN(expr.contents) ==> CLN(old(expr.contents))'),
             P(['C08', 'C12', 'C01'], 'exact',
@@ -438,8 +441,12 @@ for _cls in data_c.MATHS:
             P(['C08'], 'non-blank',
               'tolerance == 0 and cleansrc(src) and CLN(expr.contents) ==> concat(NW(SL(expr.contents)), clsattr(expr, "end")) == '
               'concat(NW(SL(old(expr.contents))), NW(%s))' % Wx('old(src.i)', 'src.i'))],
-        loops={0: Loop(ghost={'contents': 'seq[E]'}, invariant=_LIST_INV('contents'), decreases=MEASURE,
-                       modifies=['src.i', 'src.m'])}))
+        loops={0: Loop(ghost={'contents': 'seq[E]'},
+                       invariant=_LIST_INV('contents') + [
+                           A('a-closing-delimiter-first-stops-the-loop',
+                             'old(src.i) < len(src.Q) and src.Q[old(src.i)].cat == clsattr(expr, "token_end") ==> '
+                             'src.i == old(src.i) and len(contents) == 0')],
+                       decreases=MEASURE, modifies=['src.i', 'src.m'])}))
 data_c.CONCAT_HOOKS.append(lambda st, old, add, new: st.fact(CLN(new) == And(CLN(old), CLN(add))))
 
 
